@@ -55,6 +55,7 @@ fn producer(kind: usize, i: usize, text: &str, tabs: bool) -> String {
         0 => format!("[deprecated({})] struct D{i} {{}}\nstruct U{i} {{\n{ind}d: D{i}\n}}\n", lit(text)),
         1 => format!("/// Broken {{@link Nope{i}}} link é中.\nstruct B{i} {{}}\n"),
         2 => format!("/// @foo{i} unknown tag\nstruct M{i} {{}}\n"),
+        3 if i % 2 == 1 => format!("/// @param someLongParameterName: a description that is long\n/// ok\ncustom I{i}\n"),
         3 => format!("/// @returns: nothing to return\ncustom I{i}\n"),
         // validation errors
         4 if tabs => format!("struct T{i} {{\n{ind}tag(1) a: int32\t\t// tabs after the span\n}}\n"),
@@ -362,7 +363,9 @@ fn case(cx: &mut CaseCtx, input: Input) -> CaseResult {
         }
         if bundle == 4 {
             // one syntax error per file: unterminated body -> zero-width span at the end of input
-            match pick(&mut u, 3) {
+            match pick(&mut u, 4) {
+                // (a malformed preprocessor directive: reported by the preprocessor, with the file's path)
+                3 => text.push_str(&format!("#if\nstruct Cond{f} {{}}\n#endif\n")),
                 0 => text.push_str(&format!("struct Open{f} {{\n")),
                 1 => text.push_str(&format!("struct Bad{f} {{ a: }}\n")),
                 _ => text.push_str(&format!("interface I{f} {{ op() -> (a: int32) }}\n")),
@@ -406,7 +409,34 @@ fn case(cx: &mut CaseCtx, input: Input) -> CaseResult {
     let CompilationState { ast, diagnostics, files: sfiles } = slicec::compile_from_options(&options);
     let diags = diagnostics.into_updated(&ast, &sfiles, &options);
     let expected = expectations(&diags);
-    // Two expectations that do not come from the implementation's own list.
+    // Expectations that do not come from the implementation's own list.
+    // (0) every location lies inside the text of the file it names
+    {
+        let text_of0 = |name: &str| -> Option<&String> { files.iter().find(|f| f.0 == name || format!("./{}", f.0) == name).map(|f| &f.1) };
+        for e in &expected {
+            for (what, sp) in std::iter::once(("diagnostic", &e.span)).chain(e.notes.iter().map(|n| ("note", &n.1))) {
+                let Some(sp) = sp else { continue };
+                let Some(t) = text_of0(&sp.4) else {
+                    fail!(format!("location/unknown-file/{}", e.code), "{what} of {} names the file {:?}, which is none of {:?}", e.code, sp.4, files.iter().map(|f| &f.0).collect::<Vec<_>>());
+                };
+                let lens: Vec<usize> = t.split('\n').map(|l| l.chars().count()).collect();
+                let inside = |r: usize, c: usize| r >= 1 && r <= lens.len() && c >= 1 && c <= lens[r - 1] + 1;
+                check!(
+                    inside(sp.0, sp.1) && inside(sp.2, sp.3) && (sp.0, sp.1) <= (sp.2, sp.3),
+                    format!("location/outside-file/{}", e.code),
+                    "{what} of {} ({:?}): span {}:{}..{}:{} is not inside {:?} ({} lines)",
+                    e.code,
+                    e.message,
+                    sp.0,
+                    sp.1,
+                    sp.2,
+                    sp.3,
+                    sp.4,
+                    lens.len()
+                );
+            }
+        }
+    }
     // (a) what the command line suppresses: a lint named by -A (any case) or covered by All is not shown
     for e in expected.iter().filter(|e| e.level == "warning") {
         let named = allow.iter().any(|a| a.eq_ignore_ascii_case("All") || a.eq_ignore_ascii_case(&e.code));
